@@ -630,6 +630,11 @@ class Interp(StmtMixin, ObjMixin):
             a = a.value
         if isinstance(b, EnumMember) and b.kind in ('int', 'str'):
             b = b.value
+        from .builtins_ import DictView
+        if isinstance(a, DictView) and a.kind in ('keys', 'items') and op in ('BitAnd', 'BitOr', 'Sub', 'BitXor'):
+            a = set(a.items())
+        if isinstance(b, DictView) and b.kind in ('keys', 'items') and op in ('BitAnd', 'BitOr', 'Sub', 'BitXor'):
+            b = set(b.items())
         if isinstance(a, bool) and op not in ('BitAnd', 'BitOr', 'BitXor'):
             a = int(a)
         if isinstance(b, bool) and op not in ('BitAnd', 'BitOr', 'BitXor'):
@@ -866,6 +871,11 @@ class Interp(StmtMixin, ObjMixin):
                         if r is not NotImplementedVal:
                             t = self.symbolic_truth(r)
                             return (not t) if isinstance(t, bool) else z3.Not(t)
+                em = self.ext_method(x, names[o])
+                if em is not None:
+                    r = self.call(em, [y], {})
+                    if r is not NotImplementedVal:
+                        return r
                 if x.cls.dataclass is not None and o in ('==', '!=') and isinstance(y, Obj) and y.cls is x.cls:
                     if x.cls.dataclass.get('eq', True):
                         r = True
